@@ -180,6 +180,46 @@ fn rflags_typed_roundtrip() -> [u64; 3] {
     [f0.bits(), f1.bits(), f2.bits()]
 }
 
+/// two read-modify-write updates in one (inlinable) function: the second must see the first
+#[inline(never)]
+fn cr4_two_updates(a: u64, b: u64) -> [u64; 2] {
+    let mut seen = [0u64; 2];
+    unsafe {
+        Cr4::update(|f| {
+            seen[0] = f.bits();
+            f.insert(Cr4Flags::from_bits_retain(a));
+        });
+        Cr4::update(|f| {
+            seen[1] = f.bits();
+            f.insert(Cr4Flags::from_bits_retain(b));
+        });
+    }
+    seen
+}
+#[inline(never)]
+fn cr0_write_then_read(a: u64) -> [u64; 3] {
+    let r0 = Cr0::read_raw();
+    unsafe { Cr0::write_raw(a) };
+    let r1 = Cr0::read_raw();
+    let f1 = Cr0::read().bits();
+    [r0, r1, f1]
+}
+#[inline(never)]
+fn efer_two_updates(a: u64, b: u64) -> [u64; 2] {
+    let mut seen = [0u64; 2];
+    unsafe {
+        Efer::update(|f| {
+            seen[0] = f.bits();
+            f.insert(EferFlags::from_bits_retain(a));
+        });
+        Efer::update(|f| {
+            seen[1] = f.bits();
+            f.remove(EferFlags::from_bits_retain(b));
+        });
+    }
+    seen
+}
+
 fn native_u64(asm_read: impl FnOnce() -> u64) -> u64 {
     asm_read()
 }
@@ -195,6 +235,34 @@ pub fn run_regs(out: &mut Out, seed: u64, _n: u64) {
     flag_reg!(out, r, Cr0, Cr0Flags, Reg::Cr(0), "Cr0");
     flag_reg!(out, r, Cr4, Cr4Flags, Reg::Cr(4), "Cr4");
     flag_reg!(out, r, Efer, EferFlags, Reg::Msr(EFER), "Efer");
+
+    // sequences inside one function (a stale, merged read would show here)
+    for _ in 0..30 {
+        let m4 = Cr4Flags::all().bits();
+        let (pre, a, b) = (r.next(), r.next() & m4, r.next() & m4);
+        set(Reg::Cr(4), pre);
+        cpu::drain();
+        let seen = cr4_two_updates(a, b);
+        let ins = cpu::drain();
+        out.emit(Ev::new("reg_seq").str("api", "Cr4::update;Cr4::update").w("pre", pre).w("mask", m4).words("p", &[a, b]).words("r", &seen).w("post", get(Reg::Cr(4))).raw("instrs", &cpu::instrs_json(&ins)));
+        let (pre, a) = (r.next(), r.next());
+        set(Reg::Cr(0), pre);
+        cpu::drain();
+        let got = cr0_write_then_read(a);
+        let ins = cpu::drain();
+        out.emit(Ev::new("reg_seq").str("api", "Cr0::read_raw;Cr0::write_raw;Cr0::read_raw;Cr0::read").w("pre", pre).w("mask", Cr0Flags::all().bits()).words("p", &[a, 0]).words("r", &got).w("post", get(Reg::Cr(0))).raw("instrs", &cpu::instrs_json(&ins)));
+        let me = EferFlags::all().bits();
+        let (pre, a, b) = (r.next(), r.next() & me, r.next() & me);
+        set(Reg::Msr(EFER), pre);
+        cpu::drain();
+        let seen = efer_two_updates(a, b);
+        let ins = cpu::drain();
+        out.emit(Ev::new("reg_seq").str("api", "Efer::update;Efer::update").w("pre", pre).w("mask", me).words("p", &[a, b]).words("r", &seen).w("post", get(Reg::Msr(EFER))).raw("instrs", &cpu::instrs_json(&ins)));
+    }
+    // Pcid::new accepts exactly 0..4096 (the value is or-ed into CR3 by the pcid writes)
+    for x in [0u16, 1, 4094, 4095, 4096, 4097, 8191, 8192, 0xffff] {
+        out.emit(Ev::new("pcid_new").n("x", x as i64).n("ok", Pcid::new(x).is_ok() as i64));
+    }
 
     // CR2
     for &pre in lat.iter().step_by(3) {
